@@ -165,6 +165,8 @@ pub enum Alt {
     ProtectedReencoded(u8),
     /// the response carries two documents of the mDL docType: an altered copy and the authentic one (altered first: true)
     DocumentTwice(bool),
+    /// two mDL documents: the first authentic but disclosing only the AAMVA namespace, the second with altered core items
+    DocumentSplit,
     /// device signature bytes that are not a 64-byte r||s in range: 63, 65, 32, 0 bytes, 64 zero bytes
     DevSigShape(u8),
 }
@@ -333,6 +335,14 @@ pub fn apply(alt: &Alt, sc: &Scene, pt: &mut Value, rng: &mut StdRng) {
                 *docs = if *altered_first { vec![altered, authentic] } else { vec![authentic, altered] };
             }
         }
+        Alt::DocumentSplit => {
+            let mut first = doc_mut(pt).clone();
+            if let Some(Value::Map(nss)) = map_get_mut(map_get_mut(&mut first, "issuerSigned").unwrap(), "nameSpaces") { nss.retain(|(k, _)| k.as_text() != Some(NS)); }
+            let core_idx = namespaces_mut(pt).iter().position(|(k, _)| k.as_text() == Some(NS)).unwrap_or(0);
+            edit_item(pt, core_idx, 0, |m| { for (k, v) in m.iter_mut() { if k.as_text() == Some("elementValue") { *v = Value::Text("forged".into()); } } });
+            let second = doc_mut(pt).clone();
+            if let Some(Value::Array(docs)) = map_get_mut(pt, "documents") { *docs = vec![first, second]; }
+        }
         Alt::DevSigShape(k) => {
             let sig = device_sig_mut(pt)[3].as_bytes().cloned().unwrap_or_default();
             device_sig_mut(pt)[3] = bytes(&match k % 5 { 0 => sig[..63.min(sig.len())].to_vec(), 1 => [sig.clone(), vec![1]].concat(), 2 => sig[..32.min(sig.len())].to_vec(), 3 => vec![], _ => vec![0; 64] });
@@ -398,6 +408,24 @@ pub fn other_document_as_mdl(sc: &Scene, rng: &mut StdRng, sign_doc_type: &str) 
         if let Some(slot) = map_get_mut(&mut docs[0], "issuerSigned") { *slot = isg; }
     }
     resign_device(sc, &mut pt, &dk2, sign_doc_type);
+    pt
+}
+
+/// the issuer-signed part of an mDL issued (by the same issuer) to ANOTHER device key, presented in this session with
+/// a device signature made by THIS holder's key over the right DeviceAuthentication
+pub fn other_persons_mdl(sc: &Scene, rng: &mut StdRng) -> Value {
+    let dk2 = SigningKey::random(rng);
+    let other = issue_with_key(&sc.pki, MDL, new_namespaces(rng), sc.alg, false, cose_key_of(&dk2));
+    let mut pt = sc.plaintext.clone();
+    let isg = Value::Map(vec![
+        (Value::Text("nameSpaces".into()), Value::Map(other.namespaces.iter().map(|(ns, items)| (Value::Text(ns.clone()), Value::Array(items.iter().map(|it| Value::Tag(24, Box::new(Value::Bytes(it.inner_bytes.clone())))).collect()))).collect())),
+        (Value::Text("issuerAuth".into()), from_bytes(&isomdl::cbor::to_vec(&other.issuer_auth).unwrap()).unwrap()),
+    ]);
+    if let Some(Value::Array(docs)) = map_get_mut(&mut pt, "documents") {
+        if let Some(slot) = map_get_mut(&mut docs[0], "issuerSigned") { *slot = isg; }
+    }
+    let key = sc.device_key.clone();
+    resign_device(sc, &mut pt, &key, MDL);
     pt
 }
 
@@ -508,6 +536,14 @@ pub fn deliver(ctx: &mut Ctx, label: &str, spec: &str, sc: &Scene, rdr: &reader:
         arr(vec![Value::Bool(iparsed.is_some()), Value::Bool(iauth)]), Value::Bool(mso_ok), Value::Bool(dvk.is_some()),
         arr(vec![Value::Bool(dparsed.is_some()), Value::Bool(dauth)])]);
     let spec_args = match spec { "c04.spec" => vec![doc_c.clone()], _ => vec![env.clone(), doc_c.clone()] };
+    if spec == "c04.spec" {
+        // what the reader REPORTS, against the document that was authenticated
+        if let Ok(o) = &r {
+            let mut rep = vec![];
+            for (ns, els) in o.response.iter() { if let Some(m) = els.as_object() { for id in m.keys() { rep.push(arr(vec![text(ns), text(id)])); } } }
+            ctx.case(&format!("{label}:reported"), desc.clone(), arr(vec![uint(st(o.issuer_authentication)), arr(rep)]), None, Some(("c04.spec_reported", vec![doc_c.clone()])), !matches!(alt, Alt::None));
+        }
+    }
     let _ = opt;
     ctx.case(label, desc, obs, Some(("ra.validate", vec![env, doc_c])), Some((spec, spec_args)), !matches!(alt, Alt::None));
 }
@@ -545,7 +581,7 @@ pub fn c03_alts(rng: &mut StdRng, thorough: bool) -> Vec<Alt> {
     v
 }
 pub fn c04_alts(rng: &mut StdRng, thorough: bool) -> Vec<Alt> {
-    let mut v = vec![Alt::None, Alt::ItemMove, Alt::ItemInject, Alt::ItemDuplicateOtherNs, Alt::NamespaceRename, Alt::DocumentTwice(true), Alt::DocumentTwice(false)];
+    let mut v = vec![Alt::None, Alt::ItemMove, Alt::ItemInject, Alt::ItemDuplicateOtherNs, Alt::NamespaceRename, Alt::DocumentTwice(true), Alt::DocumentTwice(false), Alt::DocumentSplit];
     let n = if thorough { 40 } else { 4 };
     for _ in 0..n {
         let (a, b) = (rng.gen_range(0..2), rng.gen_range(0..6));
